@@ -26,8 +26,8 @@ use crate::{
     expression::Expression,
     instruction::{
         CalibrationDefinition, Capture, Delay, Fence, FrameIdentifier, Gate, Instruction,
-        MeasureCalibrationDefinition, Measurement, Pulse, Qubit, RawCapture, SetFrequency,
-        SetPhase, SetScale, ShiftFrequency, ShiftPhase,
+        MeasureCalibrationDefinition, Measurement, Pulse, Qubit, RawCapture, Reset, SetFrequency,
+        SetPhase, SetScale, ShiftFrequency, ShiftPhase, SwapPhases,
     },
 };
 
@@ -115,6 +115,15 @@ impl Calibrations {
                     .map(Instruction::MeasureCalibrationDefinition),
             )
             .collect()
+    }
+}
+
+/// Replace a variable qubit by the concrete qubit it is bound to, if any.
+fn substitute_qubit(qubit: &mut Qubit, qubit_expansions: &HashMap<&String, Qubit>) {
+    if let Qubit::Variable(name) = qubit {
+        if let Some(expansion) = qubit_expansions.get(name) {
+            *qubit = expansion.clone();
+        }
     }
 }
 
@@ -394,15 +403,17 @@ impl Calibrations {
                                 | Instruction::Fence(Fence { qubits }) => {
                                     // Swap all qubits for their concrete implementations
                                     for qubit in qubits {
-                                        match qubit {
-                                            Qubit::Variable(name) => {
-                                                if let Some(expansion) = qubit_expansions.get(name)
-                                                {
-                                                    *qubit = expansion.clone();
-                                                }
-                                            }
-                                            Qubit::Fixed(_) | Qubit::Placeholder(_) => {}
-                                        }
+                                        substitute_qubit(qubit, &qubit_expansions);
+                                    }
+                                }
+                                Instruction::Measurement(Measurement { qubit, .. })
+                                | Instruction::Reset(Reset {
+                                    qubit: Some(qubit), ..
+                                }) => substitute_qubit(qubit, &qubit_expansions),
+                                Instruction::SwapPhases(SwapPhases { frame_1, frame_2 }) => {
+                                    for qubit in frame_1.qubits.iter_mut().chain(&mut frame_2.qubits)
+                                    {
+                                        substitute_qubit(qubit, &qubit_expansions);
                                     }
                                 }
                                 _ => {}
